@@ -276,6 +276,9 @@ pub fn run_pipeline(
         // above.
         if !capture {
             cmd_result = _cr;
+        } else {
+            // the output is already in cmd_result; the status is known now
+            cmd_result.status = _cr.status;
         }
     }
     // a pipeline with a stage that could not be started has failed
